@@ -200,6 +200,8 @@ def run_codec(ck, F):
 
 def run(ck, tier):
     F = factsmod.Facts("ws")
+    from . import influence as _infl
+    _infl.run(ck, F, 'C04')
     run_agreement(ck, F)
     run_tracker(ck, F)
     run_codec(ck, F)
